@@ -1,7 +1,7 @@
 """C04 Code, tags, URLs and other non-prose spans are reproduced verbatim (structural clauses)."""
 
 from ..report import Ctx
-from ..rules import fence, render, rewrite, wrap
+from ..rules import hazard, fence, render, rewrite, wrap
 
 EXPLANATION = (
     "Decided: (R-ENCODE-verbatim) forward taint from every verbatim field (code text, info string, labels, destinations, titles, "
@@ -19,6 +19,7 @@ EXPLANATION = (
 
 
 def run(ctx: Ctx) -> None:
+    ctx.rule('R-ESCAPE-SITE', 'the line-start escaper is only applied to whole tokens of the atomic-aware word splitter')
     ctx.rule("R-ENCODE-verbatim", "only content-preserving operations between a verbatim field and the output")
     ctx.rule("R-ENCODE-codespan", "code span delimiter is computed from the content's backtick runs")
     ctx.rule("R-ENCODE-title", "titles are emitted with inner double quotes escaped")
@@ -42,4 +43,5 @@ def run(ctx: Ctx) -> None:
     ctx.run(rewrite.check_rewrite_scope)
     ctx.run(rewrite.check_coalesce_and_tags, {"tags"})
     ctx.run(wrap.check_placeholders)
+    ctx.run(hazard.check_escaper_on_tokens)
     ctx.assume("marko's own normalisation while parsing (autolink prefixes, label folding, info-string unescaping) is outside the repository")
